@@ -315,8 +315,8 @@ var (
 func freePort() int {
 	portMu.Lock()
 	defer portMu.Unlock()
-	for i := 0; i < 10000; i++ {
-		p := 20000 + portRng.Intn(10000)
+	for i := 0; i < 200000; i++ {
+		p := 10000 + portRng.Intn(22000)
 		if usedPort[p] || !hx.ReservePort(p) {
 			continue
 		}
